@@ -41,7 +41,9 @@ const K_LOCAL: &str = "c13-local-write-lost-to-racing-init";
 /// serialise reads against writes with a harness-level gate (reads still race reads, writes still
 /// race writes), `gated` does not run a triggering write inside a parked initialiser.
 /// `known-<key>` reproduces the defect deterministically.
-const AVOID_KNOWN: &[&str] = &[K_CACHED, K_LOCAL];
+// Both were fixed in /repo (778cae8, 1629359): nothing is avoided any more - reads race writes in
+// every mode and the directed modes stay as regression searches.
+const AVOID_KNOWN: &[&str] = &[];
 
 fn avoid(key: &str) -> bool {
     AVOID_KNOWN.contains(&key)
@@ -1596,7 +1598,7 @@ fn gen_general(rng: &mut Rng, concurrent: bool, faulty: bool, gated: bool, respe
         seam_yields,
         exclusive: concurrent && avoiding,
         trigger_allowed: !avoiding,
-        inline: !concurrent && !gated && rng.chance(15, 16),
+        inline: !concurrent && !gated && rng.chance(63, 64),
         unpinned_quiescent: concurrent || kind == Kind::Cached,
     }
 }
